@@ -377,6 +377,12 @@ control("C18", "FractionScalar.GetAbstractValue converts from the requested unit
         [(FS, "        return self.ConvertFractionValue(self._value, self._quantity, self.unit, unit)", "        return self.ConvertFractionValue(self._value, self._quantity, unit, self.unit)")], "C18.R3")
 control("C18", "numerator converted to the source unit",
         [(FS, "                fraction_value.GetFraction().numerator, to_unit", "                fraction_value.GetFraction().numerator, from_unit")], "C18.R4")
+control("C07", "a quantity built with an explicit category is also stored under the category-less key",
+        [(Q, "        quantities_cache[key] = quantity = Quantity(category, unit, unknown_unit_caption)\n        return quantity\n\n\nclass ReadOnlyError", "        quantities_cache[key] = quantity = Quantity(category, unit, unknown_unit_caption)\n        quantities_cache[(None, unit, unknown_unit_caption)] = quantity\n        return quantity\n\n\nclass ReadOnlyError")], "C07.R5")
+control("C19", "a quantity built with an explicit category is also stored under the category-less key",
+        [(Q, "        quantities_cache[key] = quantity = Quantity(category, unit, unknown_unit_caption)\n        return quantity\n\n\nclass ReadOnlyError", "        quantities_cache[key] = quantity = Quantity(category, unit, unknown_unit_caption)\n        quantities_cache[(None, unit, unknown_unit_caption)] = quantity\n        return quantity\n\n\nclass ReadOnlyError")], "C19.R4")
+control("C16", "only the first occurrence of a legacy token is replaced",
+        [(UD, "            fixed_unit = fixed_unit.replace(legacy, current)", "            fixed_unit = fixed_unit.replace(legacy, current, 1)")], "C16.R3")
 # ------------------------------------------------------------------------------------------ running
 def _apply(edits):
     overlay = {}
